@@ -1,4 +1,5 @@
 import DracoProofs.Animation
+import DracoProofs.AnimCodec
 /-
   C20 — keyframe animations survive the codec frame by frame, track by track.
 
@@ -779,6 +780,198 @@ example : ∃ atts s', decodeSequentialAttributesV {} 2 tracksFirstState = (some
         _ _ _ _ hr
       obtain ⟨a, g1, g2, -, g4, g5⟩ := h4 1 (by decide)
       exact ⟨atts, s', rfl, a, g2, g1, g5, g4⟩
+
+/-! ## the composed theorem: animation → sequential point-cloud encoder → decoder → animation -/
+
+open SeqEnc in
+/-- **C20, composed with the sequential codec theorems (C01).**  Take the animation `A` built by ANY
+    sequence of `SetTimestamps` / `AddKeyframes` calls (failed and repeated ones included) whose
+    arguments are codable and plain (`AnimCall.Codable`: valid data type, stored component count ≠ 0;
+    `AnimCall.Plain`: component count < 256, components are values of the track's type, fewer than
+    2^23 frames/components per call — i.e. away from the two narrowings of the model), with at least one
+    frame and the timestamps set.  For ALL encoder options and ALL choices of the encoder heuristics: if
+    `KeyframeAnimationEncoder` (= `PointCloudSequentialEncoder` on the animation's point cloud
+    `A.toGeometry`) produces a stream `bs`, then decoding `bs` followed by arbitrary bytes succeeds,
+    leaves exactly those bytes unread, and returns a point cloud with
+      * `A.numFrames` points (frames) and one attribute per attribute of `A`, in the same order;
+      * for every attribute index `j` (0 = timestamps, ≥ 1 = tracks): the attribute found under unique id
+        `j` — what `timestamps()` / `keyframes(j)` return on the decoded animation — is the one at
+        position `j`, has `A`'s attribute type, data type and component count, the identity frame map,
+        one value per frame, and its values are, frame by frame in order, `transformRow` of the frame's
+        input row; if the track is not quantized (not float32, or no quantization bits for it) the
+        values are BIT-EXACT the stored components. -/
+theorem animation_roundtrip (calls : List AnimCall) (ch : Choices) (opts : EncOpts) (bs : Bytes)
+    (hcod : ∀ c ∈ calls, c.Codable) (hplain : ∀ c ∈ calls, c.Plain)
+    (hpos : 0 < (Anim.empty.run calls).1.numFrames)
+    (hts : (Anim.empty.run calls).1.timestampsSize ≠ 0)
+    (hna : (Anim.empty.run calls).1.atts.length < 2 ^ 32)
+    (hexp : ∀ i org r, (opts.att i).explicitQuant = some (org, r) → r < 2 ^ 32 ∧ ∀ m ∈ org, m < 2 ^ 32)
+    (henc : encodeGeometry ch (Anim.empty.run calls).1.toGeometry none opts = some bs)
+    (extra : Bytes) :
+    ∃ r st, decodeGeometry {} { rest := bs ++ extra } = (some r, st) ∧ st.rest = extra ∧
+      r.metadata = none ∧ r.geometry.isMesh = false ∧ r.geometry.faces = [] ∧
+      r.geometry.numPoints = (Anim.empty.run calls).1.numFrames ∧
+      r.geometry.atts.length = (Anim.empty.run calls).1.atts.length ∧
+      ∀ j a, (Anim.empty.run calls).1.atts[j]? = some a →
+        ∃ d, r.geometry.atts[j]? = some d ∧
+          r.geometry.atts.find? (fun x => x.uniqueId == j) = some d ∧
+          d.uniqueId = j ∧ d.attType = a.attType ∧ d.dataType = a.dataType ∧
+          d.numComponents = a.numComponents ∧ d.map = none ∧
+          d.numValues = (Anim.empty.run calls).1.numFrames ∧
+          d.values = ((pointRows a.toAttribute (Anim.empty.run calls).1.numFrames).map
+            (transformRow opts j a.toAttribute)).flatten ∧
+          ((a.dataType ≠ 9 ∨ (opts.att j).quantBits ≤ 0) →
+            d.values = a.data.flatMap (writeLE (dataTypeLength a.dataType))) := by
+  have hok := anim_geomOK calls opts hcod hplain hpos hts hna hexp
+  obtain ⟨st, h1, h2⟩ := anim_seq_roundtrip ch _ opts bs hok henc extra
+  refine ⟨_, st, h1, h2, rfl, rfl, rfl, rfl, ?_, fun j a ha => ?_⟩
+  · simp only [expected, Anim.toGeometry, List.length_map]
+    have : ∀ (l : List Attribute) k, (zipIdxFrom k l).length = l.length := by
+      intro l; induction l with
+      | nil => intro _; rfl
+      | cons a as ih => intro k; simp [zipIdxFrom, ih]
+    rw [this]; simp
+  · exact anim_decoded_attribute calls opts hcod hplain hts hexp j a ha
+
+open SeqEnc in
+/-- **each track is retrievable under the id `AddKeyframes` returned** (`track_id_stable` ∘ unique ids
+    preserved by the codec): if call `k` was `AddKeyframes(dt, nc, data)` and returned `id ≥ 0`, then in
+    the decoded animation `keyframes(id)` (the first attribute with unique id `id`) exists, has data
+    type `dt`, `nc` components, one value per frame, and — unless the track is a quantized float32
+    track — holds exactly `data` (little endian, frame by frame). -/
+theorem animation_track_retrievable (calls : List AnimCall) (ch : Choices) (opts : EncOpts) (bs : Bytes)
+    (hcod : ∀ c ∈ calls, c.Codable) (hplain : ∀ c ∈ calls, c.Plain)
+    (hpos : 0 < (Anim.empty.run calls).1.numFrames)
+    (hts : (Anim.empty.run calls).1.timestampsSize ≠ 0)
+    (hna : (Anim.empty.run calls).1.atts.length < 2 ^ 32)
+    (hexp : ∀ i org r, (opts.att i).explicitQuant = some (org, r) → r < 2 ^ 32 ∧ ∀ m ∈ org, m < 2 ^ 32)
+    (henc : encodeGeometry ch (Anim.empty.run calls).1.toGeometry none opts = some bs)
+    (extra : Bytes) (k dt nc : Nat) (data : List Nat) (id : Int)
+    (hcall : calls[k]? = some (.addKeyframes dt nc data))
+    (hret : (Anim.empty.run calls).2[k]? = some (.id id)) (hid : 0 ≤ id) :
+    ∃ r st d, decodeGeometry {} { rest := bs ++ extra } = (some r, st) ∧ 1 ≤ id ∧
+      r.geometry.atts.find? (fun x => x.uniqueId == id.toNat) = some d ∧
+      d.dataType = dt ∧ d.numComponents = nc ∧ d.numValues = (Anim.empty.run calls).1.numFrames ∧
+      d.map = none ∧
+      ((dt ≠ 9 ∨ (opts.att id.toNat).quantBits ≤ 0) →
+        d.values = data.flatMap (writeLE (dataTypeLength dt))) := by
+  obtain ⟨r, st, h1, _, _, _, _, _, _, hatt⟩ := animation_roundtrip calls ch opts bs hcod hplain hpos hts
+    hna hexp henc extra
+  obtain ⟨a, _, hai, h1id, _, _, hdt, hncs, _, _, hsz, _, _, hplainTrack⟩ :=
+    track_id_stable calls k dt nc data id hcall hret hid
+  have hpl := hplain _ (List.mem_of_getElem? hcall)
+  obtain ⟨hnc256, _, _⟩ := hpl
+  have hst := Anim.run_stored calls Anim.empty_stored hplain
+  have hprod : nc * a.size < 2 ^ 32 := by
+    rw [hsz]
+    have := hst.1
+    calc nc * (Anim.empty.run calls).1.numFrames ≤ 255 * (Anim.empty.run calls).1.numFrames :=
+          Nat.mul_le_mul_right _ (by omega)
+      _ < 2 ^ 32 := by omega
+  obtain ⟨e1, e2, _⟩ := hplainTrack hnc256 hprod
+  obtain ⟨d, _, hfind, _, _, hddt, hdnc, hdmap, hdnv, _, hexact⟩ := hatt id.toNat a hai
+  refine ⟨r, st, d, h1, h1id, hfind, by rw [hddt, hdt], by rw [hdnc, e1], hdnv, hdmap, ?_⟩
+  intro hq
+  rw [hexact (by rw [hdt]; exact hq), e2, hdt]
+
+open SeqEnc in
+/-- **quantized tracks are `dequantize ∘ quantize` of the input**, by the codec's own float expressions:
+    for a float32 attribute `j` with quantization bits, the parameters (`quantizationParams`: the
+    configured ones, or per-component minima and the largest extent computed by `ComputeParameters`)
+    exist, and the values found under unique id `j` after decoding are, frame by frame,
+    `dequantRow (quantizeRow row)` — the expressions whose error C04 bounds by half a step. -/
+theorem animation_quantized_track (calls : List AnimCall) (ch : Choices) (opts : EncOpts) (bs : Bytes)
+    (hcod : ∀ c ∈ calls, c.Codable) (hplain : ∀ c ∈ calls, c.Plain)
+    (hpos : 0 < (Anim.empty.run calls).1.numFrames)
+    (hts : (Anim.empty.run calls).1.timestampsSize ≠ 0)
+    (hna : (Anim.empty.run calls).1.atts.length < 2 ^ 32)
+    (hexp : ∀ i org r, (opts.att i).explicitQuant = some (org, r) → r < 2 ^ 32 ∧ ∀ m ∈ org, m < 2 ^ 32)
+    (henc : encodeGeometry ch (Anim.empty.run calls).1.toGeometry none opts = some bs)
+    (extra : Bytes) (j : Nat) (a : AnimAttr) (ha : (Anim.empty.run calls).1.atts[j]? = some a)
+    (h9 : a.dataType = 9) (hq : (opts.att j).quantBits > 0) :
+    ∃ r st d mins range q, decodeGeometry {} { rest := bs ++ extra } = (some r, st) ∧
+      r.geometry.atts.find? (fun x => x.uniqueId == j) = some d ∧
+      quantizationParams a.toAttribute (opts.att j) = some (mins, range, q) ∧
+      d.values = ((pointRows a.toAttribute (Anim.empty.run calls).1.numFrames).map fun row =>
+        dequantRow range q mins (quantizeRow mins range q 0 (rowF32s a.numComponents row))).flatten := by
+  obtain ⟨r, st, h1, _, _, _, _, _, _, hatt⟩ := animation_roundtrip calls ch opts bs hcod hplain hpos hts
+    hna hexp henc extra
+  obtain ⟨d, _, hfind, _, _, _, _, _, _, hv, _⟩ := hatt j a ha
+  obtain ⟨encs, hf⟩ := encodeGeometry_full ch _ none opts bs henc
+  have hg : (Anim.empty.run calls).1.toGeometry.atts[j]? = some a.toAttribute := by
+    simp [Anim.toGeometry, ha]
+  obtain ⟨e, _, he⟩ := encodeAttribute_of_index ch _ none opts bs encs hf j a.toAttribute hg
+  have hco := Anim.run_codable calls Anim.empty_codable hcod a (List.mem_of_getElem? ha)
+  obtain ⟨mins, range, q, hqp, hT⟩ := transformRow_quantized ch opts _ j a.toAttribute e he h9 hq
+    (by show a.attType ≠ 1; rw [hco.1]; decide)
+  exact ⟨r, st, d, mins, range, q, h1, hfind, hqp, by rw [hv, hT]; rfl⟩
+
+/-! ### non-vacuity: three frames, a float32×2 track and an int16×1 track -/
+
+def sampleCalls : List AnimCall :=
+  [.setTimestamps [0, 1065353216, 1073741824],
+   .addKeyframes 9 2 [1, 2, 3, 4, 5, 6],
+   .addKeyframes 3 1 [65535, 5, 256]]
+
+def sampleAnimChoices : SeqEnc.Choices := ⟨ProbOracle.exact, fun _ => 0, fun _ => .tagged, .tagged⟩
+def sampleAnimOpts : SeqEnc.EncOpts := { builtin := false }
+
+theorem sampleCalls_encodes : ∃ bs, SeqEnc.encodeGeometry sampleAnimChoices
+    (Anim.empty.run sampleCalls).1.toGeometry none sampleAnimOpts = some bs := by
+  have : (SeqEnc.encodeGeometry sampleAnimChoices (Anim.empty.run sampleCalls).1.toGeometry none
+      sampleAnimOpts).isSome = true := by decide +kernel
+  exact Option.isSome_iff_exists.1 this
+
+/-- the int16 track was added second and got id 2; after encode + decode (with trailing bytes) it is
+    found under id 2 with its three frames bit-exact, and the float track under id 1 -/
+example : ∃ bs r st d1 d2,
+    SeqEnc.encodeGeometry sampleAnimChoices (Anim.empty.run sampleCalls).1.toGeometry none sampleAnimOpts = some bs ∧
+    decodeGeometry {} { rest := bs ++ [9, 9] } = (some r, st) ∧ st.rest = [9, 9] ∧
+    r.geometry.numPoints = 3 ∧ r.geometry.atts.length = 3 ∧
+    r.geometry.atts.find? (fun x => x.uniqueId == 1) = some d1 ∧
+    d1.values = [1, 0, 0, 0, 2, 0, 0, 0, 3, 0, 0, 0, 4, 0, 0, 0, 5, 0, 0, 0, 6, 0, 0, 0] ∧
+    r.geometry.atts.find? (fun x => x.uniqueId == 2) = some d2 ∧
+    d2.dataType = 3 ∧ d2.values = [255, 255, 5, 0, 0, 1] := by
+  obtain ⟨bs, hbs⟩ := sampleCalls_encodes
+  have hcod : ∀ c ∈ sampleCalls, c.Codable := by decide
+  have hplain : ∀ c ∈ sampleCalls, c.Plain := by decide
+  have hexp : ∀ i org r, (sampleAnimOpts.att i).explicitQuant = some (org, r) →
+      r < 2 ^ 32 ∧ ∀ m ∈ org, m < 2 ^ 32 := by
+    intro i org r h
+    have : (sampleAnimOpts.att i).explicitQuant = none := by
+      simp [sampleAnimOpts, SeqEnc.EncOpts.att]
+    rw [this] at h; cases h
+  obtain ⟨r, st, h1, h2, _, _, _, h6, h7, hatt⟩ := animation_roundtrip sampleCalls sampleAnimChoices
+    sampleAnimOpts bs hcod hplain (by decide) (by decide) (by decide) hexp hbs [9, 9]
+  obtain ⟨d1, _, f1, _, _, _, _, _, _, _, x1⟩ := hatt 1 ⟨1, 4, 9, 2, false, 3, [1, 2, 3, 4, 5, 6]⟩ (by decide)
+  obtain ⟨d2, _, f2, _, _, t2, _, _, _, _, x2⟩ := hatt 2 ⟨2, 4, 3, 1, false, 3, [65535, 5, 256]⟩ (by decide)
+  refine ⟨bs, r, st, d1, d2, hbs, h1, h2, by rw [h6]; decide, by rw [h7]; decide, f1, ?_, f2, ?_, ?_⟩
+  · rw [x1 (Or.inr (by simp [sampleAnimOpts, SeqEnc.EncOpts.att]))]; decide
+  · rw [t2]
+  · rw [x2 (Or.inl (by decide))]; decide
+
+/-- non-vacuity of `animation_track_retrievable`: the third call returned id 2 and the decoded
+    animation has the int16 track under id 2 with exactly the data passed to `AddKeyframes` -/
+example : ∃ bs r st d,
+    SeqEnc.encodeGeometry sampleAnimChoices (Anim.empty.run sampleCalls).1.toGeometry none sampleAnimOpts = some bs ∧
+    decodeGeometry {} { rest := bs ++ [] } = (some r, st) ∧
+    r.geometry.atts.find? (fun x => x.uniqueId == 2) = some d ∧ d.dataType = 3 ∧ d.numComponents = 1 ∧
+    d.values = [65535, 5, 256].flatMap (writeLE 2) := by
+  obtain ⟨bs, hbs⟩ := sampleCalls_encodes
+  have hexp : ∀ i org r, (sampleAnimOpts.att i).explicitQuant = some (org, r) →
+      r < 2 ^ 32 ∧ ∀ m ∈ org, m < 2 ^ 32 := by
+    intro i org r h
+    have : (sampleAnimOpts.att i).explicitQuant = none := by
+      simp [sampleAnimOpts, SeqEnc.EncOpts.att]
+    rw [this] at h; cases h
+  obtain ⟨r, st, d, h1, _, hf, hdt, hnc, _, _, hv⟩ := animation_track_retrievable sampleCalls
+    sampleAnimChoices sampleAnimOpts bs (by decide) (by decide) (by decide) (by decide) (by decide) hexp hbs []
+    2 3 1 [65535, 5, 256] 2 (by decide) (by decide) (by decide)
+  exact ⟨bs, r, st, d, hbs, h1, hf, hdt, hnc, hv (Or.inl (by decide))⟩
+
+/- `animation_quantized_track`: its hypotheses (`encodeGeometry … = some bs` with quantization bits on a
+   float track) involve the executable `Float32` quantizer, which the kernel cannot evaluate; witnessed by
+   the driver cases of C20 with `q<track>=bits` (the op `anim` + model decode). -/
 
 end C20
 end Draco
